@@ -12,7 +12,7 @@ HOSTILE = [13, 10, 32, 9, 58, 0, 255, 71, 72, 47, 49, 46]
 
 
 def generate(R, tier):
-    n = 4000 if tier == "quick" else 80000
+    n = 4000 if tier == "quick" else 400000
     for i in range(n):
         direction = R.choice(["request", "response"])
         minor = R.choice([0, 1, 1, 1, R.randrange(10)])
